@@ -27,7 +27,7 @@ let string_of_codes l = String.concat "" (List.map (fun c -> String.make 1 (Char
 let lookup name : handle option = get_file name
 let exists name = match lookup name with Some _ -> true | None -> false
 
-let status_str = function StOk -> "ok" | StDiff -> "diff" | StErr -> "err" | StPanic -> "panic"
+let status_str = function StOk -> "ok" | StDiff -> "diff" | StNotExist -> "notexist" | StErr -> "err" | StPanic -> "panic"
 
 let offsets layout =
   let k = List.length layout in
@@ -79,7 +79,8 @@ let run_copy_like op kv jobs (run : 'a -> z -> cmd_result) (dest_name : 'a -> st
           (* the report fails while printing: no final Sync; a destination that had to be created
              keeps its synced header *)
           (match before with
-           | None -> (match r.r_dest with Some d -> set_file (dest_name j) (reopen { d with hd_arcs = d.hd_disk }) | None -> ())
+           | None -> (match create (getz kv "m" 2) (z_of_hex (get kv "x" "3f000000")) (layout_of_csv (get kv "layout" "")) with
+               | Some fresh -> set_file (dest_name j) (Some (sync fresh)) | None -> ())
            | Some _ -> ());
           (StErr, List.rev acc)
         end else begin
@@ -95,7 +96,7 @@ let run_copy_like op kv jobs (run : 'a -> z -> cmd_result) (dest_name : 'a -> st
 let emit_readonly op kv st recs =
   match textout kv with
   | ToBad -> obs "%s err" op
-  | ToFull -> obs "%s %s" op (status_str (if st = StOk || st = StDiff then StErr else st))
+  | ToFull -> obs "%s %s" op (status_str (if st = StOk then StErr else st))   (* the flush error replaces success only *)
   | ToDiscard -> obs "%s %s" op (status_str st)
   | ToFile -> emit op st recs
 
@@ -115,7 +116,7 @@ let () =
     let globbed = get kv "files" "-" <> "-" || String.contains sr '*' || String.contains sr '?' || String.contains sr '[' in
     if globbed then begin
       let files = split_on ',' (get kv "files" "-") in
-      if files = [] then obs "clicopy err"
+      if files = [] then obs "clicopy %s" (if textout kv = ToBad then "err" else "notexist")
       else
         (* matched source files are copied to the same relative path under the destination base *)
         let jobs = List.map (fun f ->
@@ -136,7 +137,9 @@ let () =
           let rel = String.sub f (String.length sb + 1) (String.length f - String.length sb - 1) in (f, join db rel))
           (split_on ',' (get kv "files" "-"))
       else [(join sb sr, join db (if dr = "" then sr else dr))] in
-    if globbed && pairs = [] then emit_readonly "clidiff" kv StErr []   (* a pattern matching nothing is an error (not-exist) *)
+    (* dest=ROOT: the destination base is the served root itself, i.e. every file is compared with itself *)
+    let pairs = if db = "ROOT" then List.map (fun (s, _) -> (s, s)) pairs else pairs in
+    if globbed && pairs = [] then emit_readonly "clidiff" kv StNotExist []   (* a pattern matching nothing is an error (not-exist) *)
     else begin
       let jobs = List.mapi (fun i (s, d) -> diff_one fl_sub (lookup s) (lookup d) aid from until (nth_now ns i (clock0 kv))) pairs in
       let (st, outs) = run_diffs jobs in
@@ -147,7 +150,7 @@ let () =
     let items = parse_items kv in
     let ns = nows kv in
     let aid = getz kv "archive" (-1) and from = getz kv "from" 0 and until = getz kv "until" 0 in
-    if items = [] then emit_readonly "clisum" kv StErr []
+    if items = [] then emit_readonly "clisum" kv StNotExist []
     else begin
       let rec go i items acc = match items with
         | [] -> (StOk, List.rev acc)
@@ -161,7 +164,7 @@ let () =
     let kv = kv_of tk in
     let items = parse_items kv in
     let o = copy_opts kv in
-    if items = [] then obs "clisumcopy err"
+    if items = [] then obs "clisumcopy %s" (if textout kv = ToBad then "err" else "notexist")
     else
       run_copy_like "clisumcopy" kv items
         (fun (item, files) now -> sum_copy_item flocq_fops (List.map lookup files)
@@ -172,7 +175,7 @@ let () =
     let items = parse_items kv in
     let ns = nows kv in
     let aid = getz kv "archive" (-1) and from = getz kv "from" 0 and until = getz kv "until" 0 in
-    if items = [] then emit_readonly "clisumdiff" kv StErr []
+    if items = [] then emit_readonly "clisumdiff" kv StNotExist []
     else begin
       let jobs = List.mapi (fun i (item, files) ->
           sum_diff_item flocq_fops fl_sub (List.map lookup files)
@@ -254,7 +257,18 @@ let () =
     let (st, f) = generate_cmd flocq_fops existed (getz kv "m" 2) (z_of_hex (get kv "x" "3f000000")) layout lists now in
     (match textout kv with
      | ToBad -> obs "cligenerate err"
-     | _ ->
+     | ToFull | ToDiscard ->
+       (* the generated points are not visible: only the status and the header are predicted.
+          A long report to /dev/full fails while it is printed, i.e. before the Sync: the file was
+          created (all zero bytes) and nothing reached it. *)
+       let npts = List.fold_left (fun n (_, c) -> n + int_of_z c) 0 layout in
+       let long = textout kv = ToFull && geti kv "fill" 1 = 1 && npts >= 150 in
+       (match f with
+        | Some h -> set_file (get kv "dest" "")
+                      (if long then create (getz kv "m" 2) (z_of_hex (get kv "x" "3f000000")) layout else Some h)
+        | None -> ());
+       obs "cligenerate %s" (status_str (if st = StOk && textout kv = ToFull then StErr else st))
+     | ToFile ->
        (match f with Some h -> set_file (get kv "dest" "") (Some h) | None -> ());
        (match st, f with
         | StOk, Some h ->
@@ -262,3 +276,16 @@ let () =
            | Some why -> obs "cligenerate ok CONSTRAINT-VIOLATED %s" (String.concat "_" (String.split_on_char ' ' why))
            | None -> emit "cligenerate" StOk [header_record h])
         | st, _ -> obs "cligenerate %s" (status_str st))))
+
+let () =
+  register "clihttpview" (fun tk ->
+    let kv = kv_of tk in
+    match read_file (lookup (get kv "file" "")) (getz kv "retention" (-1)) (getz kv "from" 0) (getz kv "until" 0) (getz kv "now" 0) with
+    | RdNotExist -> obs "clihttpview notexist"
+    | RdErr -> obs "clihttpview err"
+    | RdPanic -> obs "clihttpview panic"
+    | RdOk (h, l) ->
+      obs "clihttpview ok";
+      (match h_header h with Some hd -> obs "out wirehdr %s" (Ops_codec.show_header hd) | None -> obs "out wirehdr ?");
+      List.iter (fun s -> obs "out %s" (show_fetch (FSeries s))) l;
+      obs "out rest 0")
